@@ -17,7 +17,8 @@ from harness.common import HarnessError
 from harness.gen import a08
 
 DRIVERS = ["drv_c12"]
-RULE = ("a case = one generated model x all 8 option combinations x its exact points; non-trivial = the model has at "
+RULE = ("a case = one generated model x all 8 option combinations x its exact points x three phases of use of one model "
+        "object (after generate+simplify, after editing attributes/equations, after a further simplify); non-trivial = the model has at "
         "least one for-equation and one user-function call, all 8 translations succeeded and at least one point was "
         "exact with a non-empty residual; distinct = distinct (model text, points)")
 TRUSTED = ["CasADi's `Function.map` (inline / serial), `Function.call(inline flags)` and `Function.expand` preserve "
@@ -33,10 +34,8 @@ def tag(o):
     return "".join("1" if o[k] else "0" for k in a08.OPTION_NAMES)
 
 
-def observe(rm, points):
-    """Everything the property talks about, canonical."""
-    obs = {"vars": rm.var_lists(), "attributes": rm.attributes(), "values": []}
-    obs["eq_sizes"] = [rm.equation_sizes("dae"), rm.equation_sizes("initial")]
+def values_of(rm, points):
+    out = []
     for pt in points:
         v = {}
         for name, fn in (("dae", lambda: rm.residual(pt, "dae")), ("initial", lambda: rm.residual(pt, "initial")),
@@ -45,10 +44,53 @@ def observe(rm, points):
                 v[name] = fn()
             except Exception as e:
                 v[name] = "raised " + type(e).__name__
-        obs["values"].append(v)
-    f = rm.model.dae_residual_function
-    obs["sx"] = bool(f.is_a("SXFunction"))
+        out.append(v)
+    return out
+
+
+def mutate(rm):
+    """Phase 2: the user edits the model object: a start value, a nominal value, and drops the last equation."""
+    m = rm.model
+    ov = {}
+    for v in m.alg_states:
+        if v.python_type is float and int(v.symbol.numel()) == 1:
+            v.start = 7.0
+            ov[(v.symbol.name(), "start")] = 7
+            break
+    for v in m.states:
+        if int(v.symbol.numel()) == 1:
+            v.nominal = 2.0
+            ov[(v.symbol.name(), "nominal")] = 2
+            break
+    if len(m.equations) > 1:
+        m.equations = list(m.equations[:-1])
+    return ov
+
+
+def observe(rm, points, opts):
+    """Everything the property talks about, canonical, over a three-step use of ONE model object:
+    (1) after generate + simplify, (2) after editing attributes / equations of the object, (3) after a
+    further simplify() with one more option (replace_constant_values)."""
+    obs = {"vars": rm.var_lists(), "attributes": rm.attributes()}
+    obs["eq_sizes"] = [rm.equation_sizes("dae"), rm.equation_sizes("initial")]
+    obs["values"] = values_of(rm, points)
+    obs["sx"] = bool(rm.model.dae_residual_function.is_a("SXFunction"))
+    ov = mutate(rm)
+    obs["overrides"] = sorted([k[0], k[1], v] for k, v in ov.items())
+    obs["eq_sizes2"] = [rm.equation_sizes("dae"), rm.equation_sizes("initial")]
+    obs["values2"] = values_of(rm, points)
+    try:
+        rm.model.simplify(dict(opts, replace_constant_values=True))
+        obs["vars3"] = rm.var_lists()
+        obs["values3"] = values_of(rm, points)
+    except Exception as e:
+        obs["vars3"] = "raised " + type(e).__name__
+        obs["values3"] = [{"dae": "-", "initial": "-", "metadata": "-", "delay": "-"} for _ in points]
     return obs
+
+
+PHASES = (("values", "after generate+simplify"), ("values2", "after editing the model object"),
+          ("values3", "after a further simplify(replace_constant_values)"))
 
 
 def check_case(ctx, case, drv):
@@ -67,7 +109,7 @@ def check_case(ctx, case, drv):
             rm = a08.RealModel(case["text"], "M", dict(o), True, tree=base.tree)
             if js is None:
                 js = rm.flat_json()
-            obs[tag(o)] = observe(rm, points)
+            obs[tag(o)] = observe(rm, points, o)
         except Exception as e:
             obs[tag(o)] = {"raised": type(e).__name__ + ": " + str(e)[:150]}
     b = obs[tag(BASE)]
@@ -87,40 +129,62 @@ def check_case(ctx, case, drv):
             continue
         if "raised" in ob:
             continue
-        for key in ("vars", "attributes", "eq_sizes"):
+        for key in ("vars", "attributes", "eq_sizes", "overrides", "eq_sizes2", "vars3"):
             if ob[key] != b[key]:
                 ctx.violation("%s differ between option combinations" % key, dict(jcase, options=o, base=BASE),
                               expected=b[key], observed=ob[key], kind="configuration")
                 status = "violation"
         if ob["sx"] != bool(o["expand_mx"]):
             ctx.count("expand_mx-flag-without-effect")
-        for pi, (vb, vo) in enumerate(zip(b["values"], ob["values"])):
-            for fn in ("dae", "initial", "metadata", "delay"):
-                if vb[fn] != vo[fn]:
-                    ctx.violation("%s function values differ between option combinations" % fn,
-                                  dict(jcase, options=o, base=BASE, point=pi), expected=vb[fn], observed=vo[fn],
-                                  kind="configuration")
-                    status = "violation"
+        for phase, label in PHASES:
+            for pi, (vb, vo) in enumerate(zip(b[phase], ob[phase])):
+                for fn in ("dae", "initial", "metadata", "delay"):
+                    if vb[fn] != vo[fn]:
+                        ctx.violation("%s function values differ between option combinations (%s)" % (fn, label),
+                                      dict(jcase, options=o, base=BASE, point=pi, phase=phase), expected=vb[fn],
+                                      observed=vo[fn], kind="history" if phase != "values" else "configuration")
+                        status = "violation"
     if "raised" in b:
         return status
-    # ---- exactness of the points (only exact points are compared with the model)
+    # ---- every combination against the exact evaluator (only exact points are compared with the model too)
+    consts = {}
     exact = []
+    ov = {(x[0], x[1]): x[2] for x in b["overrides"]}
     for pi, pt in enumerate(points):
         try:
-            want = {"dae": [a08.qs(x) for eq in a08.Oracle(js, pt, ranges).residuals("equations") for x in eq],
-                    "initial": [a08.qs(x) for eq in a08.Oracle(js, pt, ranges).residuals("initial_equations") for x in eq]}
+            orc = a08.Oracle(js, pt, ranges)
+            want = {"dae": [a08.qs(x) for eq in orc.residuals("equations") for x in eq],
+                    "initial": [a08.qs(x) for eq in a08.Oracle(js, pt, ranges).residuals("initial_equations") for x in eq],
+                    "metadata": a08.Oracle(js, pt, ranges).metadata(b["vars"])}
+            want2 = {"dae": want["dae"][:sum(b["eq_sizes2"][0])], "initial": want["initial"],
+                     "metadata": a08.Oracle(js, pt, ranges).metadata(b["vars"], ov)}
+            want3 = None
+            if isinstance(b["vars3"], dict):
+                # constants now stand for their declared values
+                pt3 = dict(pt)
+                o3 = a08.Oracle(js, pt, ranges)
+                for s_ in js["model"]["symbols"]:
+                    if "constant" in s_["prefixes"] and s_["value"]["k"] != "none":
+                        v = o3.ev(s_["value"], {}, o3.syms)
+                        pt3[s_["name"]] = v if isinstance(v, list) else [v] * max(1, len(pt.get(s_["name"], [0])))
+                want3 = {"dae": [a08.qs(x) for eq in a08.Oracle(js, pt3, ranges).residuals("equations") for x in eq][:sum(b["eq_sizes2"][0])],
+                         "initial": [a08.qs(x) for eq in a08.Oracle(js, pt3, ranges).residuals("initial_equations") for x in eq],
+                         "metadata": a08.Oracle(js, pt3, ranges).metadata(b["vars3"], ov)}
             exact.append(True)
-            # … and every combination returns lhs - rhs of the flat equations (the Fraction evaluator of C11)
             for o in COMBOS:
                 ob = obs[tag(o)]
                 if "raised" in ob:
                     continue
-                for which in ("dae", "initial"):
-                    if ob["values"][pi][which] != want[which]:
-                        ctx.violation("%s residual under an option combination differs from lhs - rhs of the flat equations" % which,
-                                      dict(jcase, options=o, point=pi), expected=want[which],
-                                      observed=ob["values"][pi][which], kind="configuration")
-                        status = "violation"
+                for phase, w in (("values", want), ("values2", want2), ("values3", want3)):
+                    if w is None:
+                        continue
+                    for which in ("dae", "initial", "metadata"):
+                        if ob[phase][pi][which] != w[which]:
+                            ctx.violation("%s function under an option combination differs from the exact evaluation of "
+                                          "the flat model (%s)" % (which, dict(PHASES)[phase]),
+                                          dict(jcase, options=o, point=pi, phase=phase), expected=w[which],
+                                          observed=ob[phase][pi][which], kind="configuration")
+                            status = "violation"
         except a08.Inexact:
             exact.append(False)
         except a08.Unsupported as e:
@@ -170,7 +234,14 @@ def fixed_cases():
             "  for j in 1:4 loop\n    x[j] = f(y[5-j], j) + 2 * f(y[j], j);\n  end for;\nend M;\n")
     pts2 = [{"time": [F(0)], "x": [F(1), F(2), F(3), F(-1)], "y": [F(0), F(1, 2), F(4), F(-2)], "p": [F(2)]},
             {"time": [F(1)], "x": [F(-3), F(1, 2), F(0), F(2)], "y": [F(1), F(1), F(-1), F(3)], "p": [F(-1)]}]
-    return [{"text": txt, "name": "M", "points": pts, "ranges": {}, "features": ["for-equation", "function"]},
+    txt3 = ("function g\n  input Real a;\n  input Real c;\n  output Real b;\nalgorithm\n  b := a * c + 2 * a - c / 2;\nend g;\n"
+            "model M\n  parameter Real p0 = 2;\n  parameter Real p1 = 3;\n  constant Real c0 = 4;\n"
+            "  Real x0(start = g(p0, p1), min = -p0 * p1);\n  Real y0(max = g(p1, p0) + 1, nominal = 2 * p0);\n  Real v[2](each start = p0);\n"
+            "equation\n  der(x0) = g(y0, p0);\n  y0 = x0 + c0;\n  for i in 1:2 loop\n    v[i] = g(x0, i) * c0;\n  end for;\nend M;\n")
+    pts3 = [{"time": [F(0)], "p0": [F(3)], "p1": [F(-2)], "c0": [F(5)], "x0": [F(1)], "der(x0)": [F(0)], "y0": [F(2)], "v": [F(1), F(1)]},
+            {"time": [F(0)], "p0": [F(1, 2)], "p1": [F(4)], "c0": [F(-1)], "x0": [F(2)], "der(x0)": [F(1)], "y0": [F(0)], "v": [F(0), F(3)]}]
+    return [{"text": txt3, "name": "M", "points": pts3, "ranges": {}, "features": ["for-equation", "function"]},
+            {"text": txt, "name": "M", "points": pts, "ranges": {}, "features": ["for-equation", "function"]},
             {"text": txt2, "name": "M", "points": pts2, "ranges": {}, "features": ["for-equation", "function"]}]
 
 
@@ -260,7 +331,8 @@ def random_models(ctx, drv, n, npoints):
             ctx.notes.append("random models stopped by the time budget after %d" % i)
             break
         g = a08.ModelGen(ctx.rng, npoints, count=lambda k: ctx.count("g:" + k), loops=True,
-                         functions=ctx.rng.choice([1, 1, 2]), delay=ctx.rng.random() < 0.4, twin_calls=0.7)
+                         functions=ctx.rng.choice([1, 1, 2]), delay=ctx.rng.random() < 0.4, twin_calls=0.7,
+                         bilinear_attr=ctx.rng.random() < 0.6)
         case = g.make()
         st = check_case(ctx, case, drv)
         calls = "call" in " ".join(k for k in ()) or ("f0(" in case["text"].split("model M")[1])
